@@ -28,6 +28,8 @@ def main():
             if sig in seen:
                 continue
             seen.add(sig)
+            if any(v.name == ob.name and v.status == 'refuted' for v in vs):
+                continue
             if '--dump' in sys.argv and sys.argv[sys.argv.index('--dump') + 1] in ob.name:
                 import z3
                 sv = z3.Solver()
